@@ -89,7 +89,7 @@ def apply_op(s, op, v):
         return pick(["SELECT select FROM from WHERE where = 1", s.replace("FROM t", "FROM group"), s.replace(" f ", " order ", 1), sel_add(s, "f", "select"), s + " GROUP BY by"])
     if op == "quote_unclosed":
         return [s.replace("'x'", "'x", 1) if "'x'" in s else s + " WHERE b = 'x", s.replace("FROM t", "FROM `t", 1), s + ' WHERE b = "x',
-                s.replace(" f ", " `f ", 1) if " f " in s else s + " ORDER BY `f", s[:s.index("FROM") + 5] + "`"][v % 5]
+                s.replace(" f ", " `f ", 1) if " f " in s else s + " ORDER BY `f", (s[:s.upper().index("FROM") + 5] if "FROM" in s.upper() else s + " FROM ") + "`"][v % 5]
     if op == "huge_number":
         return pick([s + " LIMIT 99999999999999999999999", s.replace("f > 2", "f > 1e999"), sel_add(s, "f * 1e308 * 1e308"), s.replace("0, 10", "-1e400, 1e400"),
                      sel_add(s, "BOUNDED(f, 9223372036854775808, 9223372036854775809)")])
